@@ -501,7 +501,7 @@ fn judge(r: &Recv, bytes: &[u8], hdr: Option<RespHdr>, sid: u128, accepted: u64,
 
 /// Every public entry point on one byte string.
 fn feed_all(w: &mut World, bytes: &[u8], info: &mut CaseInfo) -> CheckResult {
-    let World { b: a, gid, buf, rt, ids, valid_poll, valid_poll_sid, .. } = w;
+    let World { b: a, gid, buf, rt, ids, valid_poll, valid_poll_sid, sess_x, .. } = w;
     let gid = *gid;
     // ---- SyncIncoming::decode and what a transport does with each variant
     match SyncIncoming::decode(bytes) {
@@ -640,6 +640,41 @@ fn feed_all(w: &mut World, bytes: &[u8], info: &mut CaseInfo) -> CheckResult {
         Recv::Err(_) => {}
         Recv::Cmds(n, ..) => fail!("requester accepted commands for a different session", "{n} commands; message {hdr:?}, requester {other:#x}"),
         Recv::NoCmds => fail!("requester accepted a control message of a different session", "message {hdr:?}, requester {other:#x}"),
+    }
+
+    // ---- requesters of session X in other protocol states: one response accepted (Waiting),
+    // whole session received (PartialSync), after a gap (Resync), closed by EndSession
+    for state in 0..4u8 {
+        let mut req = SyncRequester::new_session_id(gid, SID_X);
+        let mut accepted = 0u64;
+        let feed: &[usize] = match state {
+            0 => &[0],
+            1 => &[],
+            2 => &[0, 2],
+            _ => &[],
+        };
+        if state == 1 {
+            for m in sess_x.iter() {
+                if matches!(recv(&mut req, &m.bytes), Recv::Cmds(..)) {
+                    accepted += 1;
+                }
+            }
+        } else if state == 3 {
+            let mut e = Vec::new();
+            enc(&3u32, &mut e);
+            enc(&SID_X, &mut e);
+            let _ = recv(&mut req, &e);
+        } else {
+            for i in feed {
+                if matches!(recv(&mut req, &sess_x[(*i).min(sess_x.len() - 1)].bytes), Recv::Cmds(..)) {
+                    accepted += 1;
+                }
+            }
+        }
+        let r = recv(&mut req, bytes);
+        if judge(&r, bytes, hdr, SID_X, accepted, "requester(session X, later state)")? {
+            info.label("receive in a later state: commands accepted");
+        }
     }
 
     // ---- SubscribeResponse::decode
@@ -1161,7 +1196,7 @@ pub fn run(ctx: &Ctx) -> ! {
         k.dedup();
         (w.corpus.len(), k.join(","))
     });
-    let entry = "entry points per input: SyncIncoming::decode (+ per variant what a transport does: SyncResponder::receive+poll to the end with the real graph and a requester reading the output, a second responder already bound to another session, SyncRequester::receive_push for a matching and a foreign session, update_heads/start_session/push for Subscribe, should_sync_on_hello for Hello, all getters), SyncRequester::receive for the matching session (twice: replay) and for a foreign session, SubscribeResponse::decode. Oracle: no panic; every returned SyncCommand slice lies inside the input buffer; commands are only accepted if the harness's own header parse says SyncResponse of the requester's session with the next index; foreign session => Err";
+    let entry = "entry points per input: SyncIncoming::decode (+ per variant what a transport does: SyncResponder::receive+poll to the end with the real graph and a requester reading the output, a second responder already bound to another session, SyncRequester::receive_push for a matching and a foreign session, update_heads/start_session/push for Subscribe, should_sync_on_hello for Hello, all getters), SyncRequester::receive for the matching session (twice: replay), for a foreign session, and for session-X requesters in four later protocol states, SubscribeResponse::decode. Oracle: no panic; every returned SyncCommand slice lies inside the input buffer; commands are only accepted if the harness's own header parse says SyncResponse of the requester's session with the next index; foreign session => Err";
     rep.explore(
         "raw_bytes",
         &format!("arbitrary byte strings (0..82 bytes: uniform, tag-prefixed noise, varint-heavy alphabets). {entry}. every input counts as non-trivial (the property quantifies over all byte strings)"),
